@@ -44,6 +44,8 @@ inductive JTy
   | harr                        -- [N]byte by value
   | pharr (key : Bytes)         -- *[N]byte / [N]byte of a type registered with an object code: {key: hex}
   | ohex (key : Bytes) (min max : Nat)  -- a []byte type registered with an object code: {key: hex}, bounds under validation
+  | cstr                        -- a type that decodes itself (DeserializableJSON) from a string; a registered syntactic validator refuses "bad"
+  | cnum                        -- a type that decodes itself (value receiver) from a number
   | sl (min max : Nat) (e : JTy)
   | arr (n : Nat) (e : JTy)
   | map (min max : Nat) (k v : JTy)
@@ -287,6 +289,14 @@ def dec (c : Cfg) : JTy → Json → Res
         | some n => ofBool (!(c.validate && boundsBad mn mx n))
       | _ => bad c
     | _ => bad c
+  | .cstr, j =>
+    match j with
+    | .str s => ofBool (!(c.validate && s == [98, 97, 100]))
+    | _ => .err
+  | .cnum, j =>
+    match j with
+    | .num _ => .ok
+    | _ => .err
   | .sl mn mx e, j =>
     match j with
     | .arr xs =>
@@ -423,6 +433,8 @@ def parseTy : Nat → List String → Option (JTy × List String)
   | _ + 1, "harr" :: ts => some (.harr, ts)
   | _ + 1, "ifu" :: ts => some (.ifu, ts)
   | _ + 1, "uns" :: ts => some (.uns, ts)
+  | _ + 1, "cstr" :: ts => some (.cstr, ts)
+  | _ + 1, "cnum" :: ts => some (.cnum, ts)
   | _ + 1, "str" :: mn :: mx :: ts => do pure (.str (← mn.toNat?) (← mx.toNat?), ts)
   | _ + 1, "hex" :: mn :: mx :: ts => do pure (.hex (← mn.toNat?) (← mx.toNat?), ts)
   | _ + 1, "flt" :: b :: ts => do pure (.flt (← b.toNat?), ts)
